@@ -1139,13 +1139,14 @@ def oracle_C19(rnd, budget):
         r = run(p, 'rand()')
         if r[0] != 'ok' or not (0 <= r[1] < 1):
             fail(what='rand() outside [0, 1)', got=r)
-    for l in ([1], [1, 2, 3], ['a', [1]], list(range(50))):
+    for l in ([1], [1, 2, 3], ['a', [1]], list(range(50)), [0.1, 0.2, 0.7], [1.5], [D('1.0'), 2, 'x', None, True, 2.5], [[0.5], {'k': 1}]):
         for _ in range(30):
             case()
             nm = {'l': list(l)}
             r = run(p, 'rand(l)', names=nm)
-            if r[0] != 'ok' or r[1] not in l:
-                fail(what='rand(list) did not return an element', l=l, got=r)
+            if r[0] != 'ok' or not any(r[1] is e or (type(r[1]) is type(e) and r[1] == e) for e in nm['l']):
+                fail(what='rand(list) did not return an element of the list (same value, same type)', l=l, got=r)
+                break
             r = run(p, 'shuffle(l)', names=nm)
             if r[0] != 'ok' or sorted(map(repr, r[1])) != sorted(map(repr, l)) or nm['l'] != l or r[1] is nm['l']:
                 fail(what='shuffle is not a fresh permutation / changed its argument', l=l, got=r, after=nm['l'])
